@@ -15,6 +15,7 @@
 #endif
 
 void harness(void) {
+    GHOST_INDICES_ARBITRARY();
     deps_install();
     char str[LAZY_N], snap[LAZY_N];
     for (int i = 0; i < LAZY_N - 1; ++i) str[i] = nondet_char();
